@@ -3,7 +3,7 @@
    service invocation, then at most one send of the reply framed under that request's own header,
    completed before the next request is looked at.  The theorem says the loop over the BYTE STREAM,
    under every chunking and every write/flush behaviour, does exactly that. *)
-From TM Require Import Base Frame Pdu RtuCodec TcpCodec Framed Client Server FramedProofs ServerProofs EndToEnd.
+From TM Require Import Base Frame Pdu RtuCodec TcpCodec Framed Client Server FramedProofs ServerProofs EndToEnd Text Run Exchange ClientProofs PduEncode.
 
 Theorem C07_stream_is_served_request_by_request : forall p m fs is cs b rd tl svc w fuel,
   Forall2 (server_valid p) fs is -> Forall nonempty cs ->
@@ -37,3 +37,15 @@ Theorem C07_exception_frame_rtu : forall m tid uid f e, fc_value f < 0x80 ->
   rtu_server_enc m (tid, uid) (RRExc {| exr_function := f; exr_exception := e |})
   = Val (rtu_frame uid (Spec.spec_exc_pdu (fc_value f) (ex_value e))).
 Proof. exact server_exception_frame_rtu. Qed.
+
+(* every frame the server encoders produce is non-empty: the side condition of [C07_default_trace] always holds *)
+Theorem C07_reply_frames_nonempty : forall p m h rr f, server_enc p m h rr = Val f -> f <> [].
+Proof. exact server_enc_nonempty. Qed.
+(* one request, cut into read chunks in any way, on a fresh connection with default transport: exactly the
+   invocation and (unless declined) exactly one reply frame under the request's header, then the connection waits *)
+Theorem C07_one_request_any_fragmentation : forall p m st r rep cs,
+  req_size r <= 253 -> canonical_req r = true -> req_carried_by p r = true ->
+  next_tid st < 65536 -> unit_id st < 256 ->
+  concat cs = req_frame p (req_hdr p st) r -> Forall nonempty cs ->
+  serve_conn p m (datas cs) [] [] [rep] = one_trace p m (req_hdr p st) r rep.
+Proof. exact serve_one_chunked. Qed.
